@@ -191,6 +191,12 @@ double CDF_Chi_Square(double x, double dof)
 
 double PDF_Chi_Bar_Square(double x, std::vector<double> weights)
 {
+	for(double weight : weights)
+		if(weight < 0.0 || weight > 1.0)
+		{
+			std::cerr << "Error in libphysica::PDF_Chi_Bar_Square(): Weight is not in [0,1] (weight=" << weight << ")." << std::endl;
+			std::exit(EXIT_FAILURE);
+		}
 	if(x <= 0)
 		return 0.0;
 	else
@@ -204,6 +210,12 @@ double PDF_Chi_Bar_Square(double x, std::vector<double> weights)
 
 double CDF_Chi_Bar_Square(double x, std::vector<double> weights)
 {
+	for(double weight : weights)
+		if(weight < 0.0 || weight > 1.0)
+		{
+			std::cerr << "Error in libphysica::CDF_Chi_Bar_Square(): Weight is not in [0,1] (weight=" << weight << ")." << std::endl;
+			std::exit(EXIT_FAILURE);
+		}
 	if(x < 0)
 		return 0.0;
 	else
